@@ -3,13 +3,11 @@ package c08
 import (
 	"bytes"
 	"encoding/json"
-	"errors"
 	"fmt"
 	"math/big"
 	"strings"
 	"testing"
 
-	"github.com/ipfs/go-cid"
 	ic "github.com/libp2p/go-libp2p/core/crypto"
 	cpb "github.com/libp2p/go-libp2p/core/crypto/pb"
 	"github.com/libp2p/go-libp2p/core/peer"
@@ -185,7 +183,7 @@ func addrInfoForms(id peer.ID, addrs []ma.Multiaddr) string {
 
 func TestPeerID(t *testing.T) {
 	name := t.Name()
-	hx.Check(t, 800, 60000, 0, func(rt *rapid.T) {
+	hx.Check(t, 2000, 60000, 0, func(rt *rapid.T) {
 		peer.AdvancedEnableInlining = true // the documented default; process-global
 		k := drawKey(rt, "k")
 		o := drawKey(rt, "other")
@@ -228,8 +226,8 @@ func TestPeerID(t *testing.T) {
 			if m, _ := ic.MarshalPublicKey(ex); !bytes.Equal(m, k.pubM) || !ex.Equals(k.pub) {
 				rt.Fatalf("%s: ExtractPublicKey returned another key", k.tag)
 			}
-		} else if !errors.Is(err, peer.ErrNoPublicKey) {
-			rt.Fatalf("%s: ExtractPublicKey from a hashed ID: key=%v err=%v, want ErrNoPublicKey", k.tag, ex, err)
+		} else if err == nil {
+			rt.Fatalf("%s: ExtractPublicKey returned a key (%v) from an ID that does not embed one", k.tag, ex)
 		}
 		if !id.MatchesPublicKey(k.pub) || !id.MatchesPrivateKey(k.priv) {
 			rt.Fatalf("%s: ID does not match its own key", k.tag)
@@ -258,10 +256,10 @@ type fakePub struct {
 	raw []byte
 }
 
-func (f *fakePub) Equals(o ic.Key) bool                { return f.typ == o.Type() && bytes.Equal(f.raw, rawOf(o)) }
-func (f *fakePub) Raw() ([]byte, error)                { return f.raw, nil }
-func (f *fakePub) Type() cpb.KeyType                   { return f.typ }
-func (f *fakePub) Verify(_, _ []byte) (bool, error)    { return false, nil }
+func (f *fakePub) Equals(o ic.Key) bool             { return f.typ == o.Type() && bytes.Equal(f.raw, rawOf(o)) }
+func (f *fakePub) Raw() ([]byte, error)             { return f.raw, nil }
+func (f *fakePub) Type() cpb.KeyType                { return f.typ }
+func (f *fakePub) Verify(_, _ []byte) (bool, error) { return false, nil }
 
 // TestPeerIDThreshold enumerates marshalled key lengths across the inlining threshold.
 func TestPeerIDThreshold(t *testing.T) {
@@ -412,7 +410,7 @@ func formAlphabet(form string) string {
 
 func TestPeerIDMutation(t *testing.T) {
 	name := t.Name()
-	hx.Check(t, 1200, 100000, 0, func(rt *rapid.T) {
+	hx.Check(t, 4000, 120000, 0, func(rt *rapid.T) {
 		peer.AdvancedEnableInlining = true
 		k := drawKey(rt, "k")
 		form := rapid.SampledFrom(idFormNames).Draw(rt, "form")
@@ -466,7 +464,7 @@ func TestPeerIDEveryPosition(t *testing.T) {
 	name := t.Name()
 	peer.AdvancedEnableInlining = true
 	idx := 0
-	for ti, typ := range keyTypes {
+	for ti, typ := range sweepTypes(hx.Pick(1, 3)) {
 		k := freshKey(typ, uint64(777+ti))
 		for _, form := range []string{"binary", "b58", "cid-b32", "cid-b58", "cid-b36"} {
 			orig := idForm(k.id, form)
